@@ -483,7 +483,9 @@ def _exec_c16(plan, world, R):
                     R.fail("exception", idx, op, f"{type(e).__name__}: {e}")
                 if not c.freed and hs.getNumNotifiers() != n0 - 1:
                     R.fail("notifier_not_released", idx, op, f"HAL still has {hs.getNumNotifiers()} active notifiers after {op[1]} (had {n0})")
-                if c.handle in handles["live"]:
+                # (a delay that had been released before owns no handle any more: the HAL may have handed the same
+                #  handle value to the other live delay in the meantime)
+                if not c.freed and c.handle in handles["live"]:
                     R.fail("notifier_not_released", idx, op, f"HAL notifier handle {c.handle} was stopped but never cleaned (leaked) by {op[1]}")
                 if handles["double"]:
                     R.fail("notifier_double_release", idx, op, "the same HAL notifier handle was cleaned twice")
